@@ -103,7 +103,7 @@ func zzC19Step(a, b *Router[*hnd], m *zzModel, op, i int) bool {
 func zzRoutesString(r *Router[*hnd]) string {
 	rs := r.Routes()
 	s := ""
-	for _, p := range []string{"*", "/p/x", "/y/{id}", "/p/{k}/z", "/p/q/w", "/r/{id}", "/p/q/v", "/p/1", "/p/2", "/p/3", "/p/4", "/p/5"} {
+	for _, p := range []string{"*", "/p/x", "/y/{id}", "/p/{k}/z", "/p/q/w", "/r/{id}", "/p/q/v", "/p/1", "/p/2", "/p/3", "/p/4", "/p/5", "/p"} {
 		if ms, ok := rs[p]; ok {
 			s += p + "=" + zzJoin(ms) + ";"
 		}
@@ -120,7 +120,7 @@ func ZZC19(n int) {
 	m := &zzModel{}
 	if n >= 100 {
 		// a populated table: five literal siblings (first-byte index) next to a parameter route under /p/
-		for i, p := range []string{"/p/1", "/p/2", "/p/3", "/p/4", "/p/5", "/p/{k}/z"} {
+		for i, p := range []string{"/p/1", "/p/2", "/p/3", "/p/4", "/p/5", "/p/{k}/z", "/p"} {
 			a.Handle(p, &hnd{id: 60 + i}, nil, "GET")
 			b.Handle(p, &hnd{id: 60 + i}, nil, "GET")
 			m.add(p, 60+i, "GET")
@@ -199,9 +199,21 @@ func ZZC19Verbs(n int) {
 	res3.Handle(h(44), audit, "POST")
 	p.Prefix("/al4", base...).Get("/x", h(45))
 	p.Prefix("/al5", audit...).Get("/x", h(46))
+	p.Resource("/al6", base...).Get(h(47))
+	p.Resource("/al7", audit...).Get(h(48))
+	// TRACE registered by hand on a resource (no WithTrace), then the resource is cleaned
+	rt := a.Resource("/tr", zzMW("T2"))
+	rt.Handle(h(51), nil, "TRACE", "GET")
+	rt.Clean()
+	rt2 := a.Resource("/tr2")
+	rt2.Handle(h(52), nil, "TRACE", "POST")
+	rt2.Remove()
 	b.Handle("/p/al1", h(41), zzMWs("Ba", "P"), "GET").Handle("/p/al2", h(42), zzMWs("Ba", "Bb", "P"), "GET")
 	b.Handle("/p/al3", h(43), zzMWs("Ba", "S3", "P"), "GET").Handle("/p/al3", h(44), zzMWs("Ba", "Bb", "S3", "P"), "POST")
 	b.Handle("/p/al4/x", h(45), zzMWs("Ba", "P"), "GET").Handle("/p/al5/x", h(46), zzMWs("Ba", "Bb", "P"), "GET")
+	b.Handle("/p/al6", h(47), zzMWs("Ba", "P"), "GET").Handle("/p/al7", h(48), zzMWs("Ba", "Bb", "P"), "GET")
+	b.Handle("/tr", h(51), zzMWs("T2"), "TRACE", "GET").Remove("/tr")
+	b.Handle("/tr2", h(52), nil, "TRACE", "POST").Remove("/tr2")
 	zzv.Assert(p.Pattern() == "/p" && res.Pattern() == "/p/r/{id:digit}" && p.Router() == a && res.Router() == a, "facade-accessors")
 	zzv.Cover("verbs")
 
@@ -211,8 +223,8 @@ func ZZC19Verbs(n int) {
 		zzv.Assert(zzJoin(ra[pat]) == zzJoin(rb[pat]) && len(ra[pat]) > 0, "verbs:method-set-differs-from-explicit-Handle")
 	}
 	val := zzv.Bytes("v", n)
-	for _, path := range []string{"/g", "/any", "/p/x/" + val, "/p/pany", "/p/ph", "/p/r/" + val, "/q", "/p/al1", "/p/al2", "/p/al3", "/p/al4/x", "/p/al5/x"} {
-		for _, m := range []string{"GET", "POST", "DELETE", "PUT", "PATCH", "CONNECT", "HEAD", "OPTIONS"} {
+	for _, path := range []string{"/g", "/any", "/p/x/" + val, "/p/pany", "/p/ph", "/p/r/" + val, "/q", "/p/al1", "/p/al2", "/p/al3", "/p/al4/x", "/p/al5/x", "/p/al6", "/p/al7", "/tr", "/tr2"} {
+		for _, m := range []string{"GET", "POST", "DELETE", "PUT", "PATCH", "CONNECT", "HEAD", "OPTIONS", "TRACE"} {
 			oa, wa := zzServe(a, zzReq(m, path))
 			ob, wb := zzServe(b, zzReq(m, path))
 			zzv.Assert(oa.id == ob.id && wa.status == wb.status && zzSameChain(oa.chain, ob.chain) && wa.h.Get("Allow") == wb.h.Get("Allow"), "verbs:shorthand-differs-from-explicit-Handle")
